@@ -716,7 +716,50 @@ class Interp:
             return VFnItem(canon(e['fn'].get('res') or e['fn']['def']), canon(e['fn']['def']))
         return UNIT
 
+    def for_parts(self, e):
+        """`for PAT in ITER { BODY }` (ForLoopDesugar) -> (ITER expr, PAT, BODY) or None"""
+        if e.get('source') != 'ForLoopDesugar' or len(e['arms']) != 1: return None
+        sc = e['scrutinee']
+        while sc['k'] in ('Use', 'NeverToAny'): sc = sc['source']
+        if sc['k'] != 'Call' or len(sc['args']) != 1: return None
+        lp = e['arms'][0]['body']
+        while lp['k'] in ('Use', 'NeverToAny'): lp = lp['source']
+        if lp['k'] != 'Loop': return None
+        for m in walk(lp['body']):
+            if m['k'] == 'Match' and m.get('source') == 'ForLoopDesugar':
+                for a in m['arms']:
+                    p = a['pat']
+                    if p['k'] == 'Variant' and p['variant'] == 'Some' and p['subs']:
+                        return sc['args'][0], p['subs'][0]['pat'], a['body']
+                return None
+        return None
+
+    def ev_for(self, e, parts, env):
+        """A `for` loop that only updates one diagram-valued accumulator is a fold; anything else is not analysed."""
+        itx, pat, body = parts
+        assigned = set()
+        for x in walk(body):
+            if x['k'] in ('Assign', 'AssignOp'):
+                if x['lhs']['k'] != 'VarRef': raise Undecidable('loop assigning to something other than a local variable', e['loc'])
+                if x['lhs']['var'] in env: assigned.add(x['lhs']['var'])
+            if x['k'] in ('Break', 'Continue', 'Return') or (x['k'] == 'Match' and x.get('source') == 'TryDesugar'):
+                raise Undecidable('loop with an early exit', e['loc'])
+        if len(assigned) != 1: raise Undecidable('loop carrying %d variables (only single-accumulator loops are analysed)' % len(assigned), e['loc'])
+        acc = next(iter(assigned))
+        if not isinstance(env.get(acc), VBdd): raise Undecidable('loop-carried variable %s is not a diagram' % acc, e['loc'])
+        it = self.ev(itx, env)
+        def step(a, x):
+            env2 = dict(env); env2[acc] = a
+            if not self.match(pat, x, env2): raise Undecidable('refutable loop pattern', e['loc'])
+            self.ev(body, env2)
+            return env2[acc]
+        fold = self.E.std['__fold_core__']
+        env[acc] = fold(self, it, env[acc], step, e['loc'], body)
+        return UNIT
+
     def ev_Match(self, e, env):
+        fp = self.for_parts(e)
+        if fp is not None: return self.ev_for(e, fp, env)
         v = self.ev(e['scrutinee'], env)
         for arm in e['arms']:
             env2 = dict(env)
